@@ -67,6 +67,7 @@ def harnesses(tier):
         hs.append({"id": "emit/%s/repeated-tag" % em, "params": {"kind": "emit", "emitter": em, "cg": "cg-last", "slots": 0, "repeat": True}, "timeout": 300})
         hs.append({"id": "emit/%s/value-characters" % em, "params": {"kind": "emit", "emitter": em, "cg": "cg-last", "slots": 0, "chars": "value"}, "timeout": 600})
         hs.append({"id": "emit/%s/name-characters" % em, "params": {"kind": "emit", "emitter": em, "cg": "cg-last", "slots": 0, "chars": "name"}, "timeout": 600})
+        hs.append({"id": "emit/%s/no-final-newline" % em, "params": {"kind": "emit", "emitter": em, "cg": "no-cg", "slots": 1, "nonl": True}, "timeout": 300})
         hs.append({"id": "emit/%s/ds-tag" % em, "params": {"kind": "emit", "emitter": em, "cg": "cg-last", "slots": 0, "ds": True}, "timeout": 300})
     return hs
 
@@ -257,6 +258,7 @@ class StubAligner:
 CH = ["%", "s", ":", " ", chr(92), "{", chr(0x1f), chr(0xe9), "*", "="]
 NAMECH = [" ", chr(0x1f), chr(0xa0), "%", ":", "|", chr(0x0b), "s"]
 NAME = ["r1"]
+NONL = [False]  # the record is the last line of a file that does not end in a newline
 
 
 def out_name():
@@ -267,6 +269,7 @@ def out_name():
 def build_opt(params, a, pick_):
     """optional fields (and, as a side effect, the read name) of the harness instance chosen by the selector values a"""
     NAME[0] = "r1"
+    NONL[0] = bool(params.get("nonl"))
     slots = params["slots"]
     opt = []
     for i in range(slots):
@@ -298,7 +301,7 @@ def emit(emitter, opt):
         cols = "%s\t%d\t0\t%d\t-\tchr1\t15\t2\t12\t9\t10\t60" % (NAME[0], qe + 5, qe)
     else:
         cols = "%s\t%d\t0\t%d\t+\t<s2<s1\t15\t3\t13\t9\t10\t60" % (NAME[0], qe + 5, qe)
-    line = cols + "".join("\t" + x for x in opt) + "\n"
+    line = cols + "".join("\t" + x for x in opt) + ("" if NONL[0] else "\n")
     e.files["in.gaf"] = stubs.MFile("text", [line], [0, 100])
     e.files["g.gfa"] = stubs.MFile("text", GFA_LINES, None)
     if emitter == "view-n":
@@ -516,7 +519,7 @@ def real_emit(wd, em, opt):
     gfa = os.path.join(wd, "g.gfa")
     open(gfa, "w").write("".join(GFA_LINES))
     gaf = os.path.join(wd, "in.gaf")
-    open(gaf, "w").write(line + "\n")
+    open(gaf, "w").write(line + ("" if NONL[0] else "\n"))
     out = os.path.join(wd, "o.gaf")
     try:
         if em == "view-n":
